@@ -15,3 +15,5 @@ package dcs
 // ---- C20 -----------------------------------------------------------------------------------------------------
 //@ define adapterOK(o *OptimizationClusterAdapter) = o.cluster != nil && clusterOK(o.cluster)
 //@ typeinv *app/dcs.OptimizationClusterAdapter adapterOK init app/dcs.NewOptimizationClusterAdapter
+//@ func app/dcs.NewOptimizationDCSAdapter
+//@   ensures C20.nonnil [C20]: result != nil
